@@ -45,7 +45,40 @@ pub const RULES_LADDER: [usize; 6] = [1, 2, 4, 191, 192, 193];
 // capacity failures, PopWithEmptyStack and restore-inside-a-CIE, which the resource model
 // understands)
 
-fn emit(a: &mut Asm, rng: &mut Rng, n: usize, regs: u64, in_cie: bool, depth_bias: u64, wide: bool) {
+/// How the location counter is driven in an FDE program, and what the generator emitted
+/// (the reference for the row-boundary model: [0, delta] advance, [1, address, indirect] set_loc).
+pub struct LocGen {
+    pub wide: bool,
+    /// pointer encoding of DW_CFA_set_loc operands (the CIE's 'R' augmentation), if set_loc is used
+    pub setloc_enc: Option<u8>,
+    pub asz: u8,
+    pub init: u64,
+    pub range: u64,
+    pub events: Vec<Vec<i64>>,
+}
+
+fn enc_ptr(a: &mut Asm, enc: u8, v: u64, asz: u8) {
+    match enc & 0x0f {
+        0x01 => {
+            a.uleb(v);
+        }
+        0x02 => {
+            a.u16(v as u16);
+        }
+        0x03 => {
+            a.u32(v as u32);
+        }
+        0x04 => {
+            a.u64(v);
+        }
+        _ => {
+            a.uint(v, asz as usize);
+        }
+    }
+}
+
+fn emit(a: &mut Asm, rng: &mut Rng, n: usize, regs: u64, in_cie: bool, depth_bias: u64, lg: &mut LocGen) {
+    let wide = lg.wide;
     for _ in 0..n {
         let r = rng.below(regs);
         match rng.below(16) {
@@ -97,7 +130,26 @@ fn emit(a: &mut Asm, rng: &mut Rng, n: usize, regs: u64, in_cie: bool, depth_bia
                 a.u8(0x0d).uleb(rng.below(32));
             }
             14 => {
-                if !in_cie && wide {
+                if !in_cie && wide && lg.setloc_enc.is_some() && rng.chance(1, 3) {
+                    // DW_CFA_set_loc with the CIE's pointer encoding: forwards, backwards, past
+                    // the end of the FDE
+                    let enc = lg.setloc_enc.unwrap();
+                    let v = match rng.below(5) {
+                        0 => lg.init.wrapping_sub(rng.below(8)),
+                        1 => lg.init + lg.range + rng.below(8),
+                        _ => lg.init + rng.below(lg.range + 1),
+                    };
+                    // what the chosen format can hold is what is encoded
+                    let v = match enc & 0x0f {
+                        0x02 => v & 0xffff,
+                        0x03 => v & 0xffff_ffff,
+                        0x00 if lg.asz < 8 => v & ((1u64 << (8 * lg.asz as u32)) - 1),
+                        _ => v,
+                    };
+                    a.u8(0x01);
+                    enc_ptr(a, enc, v, lg.asz);
+                    lg.events.push(vec![1, v as i64, (enc & 0x80 != 0) as i64]);
+                } else if !in_cie && wide {
                     // every advance encoding, with deltas that reach or pass the top of the
                     // address space once factored
                     let d = match rng.below(6) {
@@ -111,19 +163,25 @@ fn emit(a: &mut Asm, rng: &mut Rng, n: usize, regs: u64, in_cie: bool, depth_bia
                     match rng.below(4) {
                         0 => {
                             a.u8(0x40 | (d & 0x3f) as u8);
+                            lg.events.push(vec![0, (d & 0x3f) as i64]);
                         }
                         1 => {
                             a.u8(0x02).u8(d as u8);
+                            lg.events.push(vec![0, (d & 0xff) as i64]);
                         }
                         2 => {
                             a.u8(0x03).u16(d as u16);
+                            lg.events.push(vec![0, (d & 0xffff) as i64]);
                         }
                         _ => {
                             a.u8(0x04).u32(d as u32);
+                            lg.events.push(vec![0, (d & 0xffff_ffff) as i64]);
                         }
                     }
                 } else if !in_cie {
-                    a.u8(0x40 | (1 + rng.below(3)) as u8); // advance_loc
+                    let d = 1 + rng.below(3);
+                    a.u8(0x40 | d as u8); // advance_loc
+                    lg.events.push(vec![0, d as i64]);
                 }
             }
             _ => {
@@ -148,8 +206,17 @@ pub fn gen_case(_tier: Tier, master: u64, i: u64) -> Case {
     let mask = if asz >= 8 { u64::MAX } else { (1u64 << (8 * asz as u32)) - 1 };
     let caf: u64 = if wide { *rng.pick(&[1u64, 1, 2, 3, 4, 0x100, 0x1_0000, 0x5555_5556, 0x1_0000_0000, 1 << 63]) } else { 1 };
     let range: u64 = if wide { *rng.pick(&[0x1000u64, 0x40, 0xf000]) } else { 0x1000 };
+    // a third of the wide programs use DW_CFA_set_loc; its operand (and the FDE's own pointers)
+    // then carry the pointer encoding of a 'zR' CIE, possibly with the indirect bit
+    let setloc_enc: Option<u8> = if wide && asz >= 4 && rng.chance(1, 3) {
+        Some(*rng.pick(&[0x00u8, 0x01, 0x02, 0x03, 0x04, 0x03, 0x80, 0x83, 0x84]))
+    } else {
+        None
+    };
     let init: u64 = if !wide {
         TEXT_ADDR
+    } else if setloc_enc.is_some() {
+        0x1000
     } else {
         match rng.below(3) {
             0 => 0x1000,
@@ -159,17 +226,36 @@ pub fn gen_case(_tier: Tier, master: u64, i: u64) -> Case {
     };
     c.set("addr_size", asz as i64);
     c.set("init_addr", init as i64);
+    let mut lg = LocGen { wide, setloc_enc, asz, init, range, events: Vec::new() };
+    let mut no_loc = LocGen { wide: false, setloc_enc: None, asz, init, range, events: Vec::new() };
     let tok = a.begin_len(false);
-    a.u32(0).u8(1).cstr(b"").uleb(caf).sleb(-8).u8(16);
+    match setloc_enc {
+        Some(enc) => {
+            a.u32(0).u8(1).cstr(b"zR").uleb(caf).sleb(-8).u8(16).uleb(1).u8(enc);
+        }
+        None => {
+            a.u32(0).u8(1).cstr(b"").uleb(caf).sleb(-8).u8(16);
+        }
+    }
     let ncie = *rng.pick(&[0usize, 1, 2, 3, 6]);
     let cie_n = if regs >= 200 && rng.bool() { 200 } else { ncie };
-    emit(&mut a, &mut rng, cie_n, regs, true, 1, false);
+    emit(&mut a, &mut rng, cie_n, regs, true, 1, &mut no_loc);
     a.align(8);
     a.end_len(tok, 0);
     let tok = a.begin_len(false);
     let ptr = a.len();
     a.u32(ptr as u32);
-    a.uint(init, asz as usize).uint(range, asz as usize);
+    match setloc_enc {
+        Some(enc) => {
+            // pc_begin in the CIE's encoding, the range in its format; no augmentation data
+            enc_ptr(&mut a, enc, init, asz);
+            enc_ptr(&mut a, enc, range, asz);
+            a.uleb(0);
+        }
+        None => {
+            a.uint(init, asz as usize).uint(range, asz as usize);
+        }
+    }
     let fde_n = if regs >= 200 { 20 + rng.usize(400) } else { rng.usize(30) };
     let bias = rng.below(4);
     if rng.chance(1, 5) {
@@ -186,16 +272,20 @@ pub fn gen_case(_tier: Tier, master: u64, i: u64) -> Case {
         }
         for _ in 0..d {
             a.u8(0x0b).u8(0x41);
+            lg.events.push(vec![0, 1]);
         }
         c.note = format!("boundary_r{}_d{}", r, d);
     } else {
-        emit(&mut a, &mut rng, fde_n, regs, false, bias, wide);
+        emit(&mut a, &mut rng, fde_n, regs, false, bias, &mut lg);
         c.note = format!("regs{}{}", regs, if wide { "+wide" } else { "" });
     }
     a.align(8);
     a.end_len(tok, 0);
     a.u32(0);
     c.put("eh_frame", a.v);
+    // what the generator emitted is the reference for the row-boundary model
+    c.steps = lg.events;
+    c.set("has_events", 1);
     c
 }
 
@@ -420,9 +510,21 @@ pub fn run(case: &Case, ctx: &mut Ctx<'_>) {
         let caf = fde.cie().code_alignment_factor();
         let mut want: Vec<String> = Vec::new();
         let mut cur = fde.initial_address();
-        for i in &fde_ins {
-            if let CallFrameInstruction::AdvanceLoc { delta } = i {
-                let adv = (*delta as u64).wrapping_mul(caf);
+        // the location-counter events as the *generator* emitted them (E4 inputs are never
+        // corrupted), so that the decoder is judged too
+        let mut events: Vec<Vec<i64>> = case.steps.clone();
+        if case.knob("has_events", 0) == 0 {
+            events = fde_ins
+                .iter()
+                .filter_map(|i| match i {
+                    CallFrameInstruction::AdvanceLoc { delta } => Some(vec![0, *delta as i64]),
+                    _ => None,
+                })
+                .collect();
+        }
+        for ev_ in &events {
+            if ev_[0] == 0 {
+                let adv = (ev_[1] as u64).wrapping_mul(caf);
                 match cur.checked_add(adv).filter(|x| *x <= mask) {
                     Some(next) => {
                         want.push(format!("row {:#x}..{:#x}", cur, next));
@@ -433,13 +535,30 @@ pub fn run(case: &Case, ctx: &mut Ctx<'_>) {
                         ctx.probe("cap_advance_overflow");
                     }
                 }
+            } else {
+                let (addr, indirect) = (ev_[1] as u64, ev_[2] != 0);
+                if indirect {
+                    // the operand names a slot that holds the address: without memory access the
+                    // location is unknown; the decoder refuses it and the program ends there
+                    want.push("err UnsupportedIndirectPointer".into());
+                    ctx.probe("cap_setloc_indirect");
+                    break;
+                }
+                if addr < cur {
+                    want.push("err InvalidCfiSetLoc".into());
+                    ctx.probe("cap_setloc_backwards");
+                } else {
+                    want.push(format!("row {:#x}..{:#x}", cur, addr));
+                    cur = addr;
+                    ctx.probe("cap_setloc");
+                }
             }
         }
         within_fde = cur <= fde.end_address() && fde.end_address() >= fde.initial_address();
         want.push(format!("row {:#x}..{:#x}", cur, fde.end_address()));
         let got: Vec<String> = u
             .iter()
-            .filter(|l| l.starts_with("row ") || l.as_str() == "err AddressOverflow")
+            .filter(|l| l.starts_with("row ") || matches!(l.as_str(), "err AddressOverflow" | "err UnsupportedIndirectPointer" | "err InvalidCfiSetLoc"))
             .map(|l| l.split(" cfa=").next().unwrap_or("").to_string())
             .collect();
         if got != want {
